@@ -229,9 +229,8 @@ def run_fine_case(case: Dict[str, Any]) -> Dict[str, Any]:
         return _alive(self)
 
     shim_thr.Thread.is_alive = is_alive
-    old = (dcm.threading, dcm.time, dsm.__dict__.get("open"), qlm.tempfile, qlm.shutil)
-    dcm.threading, dcm.time = shim_thr, shim_time
-    from .rebind import rebind              # the same stand-ins under any import style of the data-logger files
+    from .rebind import rebind, snapshot, reinstate   # stand-ins under any import style of the data-logger files
+    old = (snapshot(dcm, ("threading", "time")), None, dsm.__dict__.get("open"), snapshot(qlm, ("tempfile", "shutil")))
     rebind(dcm, {"threading": shim_thr, "time": shim_time})
 
     def gopen(path, mode="r", *a, **k):
@@ -239,8 +238,7 @@ def run_fine_case(case: Dict[str, Any]) -> Dict[str, Any]:
         return GFile(ctl, builtins.open(path, mode, *a, **k), "")
 
     dsm.open = gopen
-    qlm.tempfile, qlm.shutil = _ShimTempfile(ctl), _ShimShutil(ctl)
-    rebind(qlm, {"tempfile": qlm.tempfile, "shutil": qlm.shutil})
+    rebind(qlm, {"tempfile": _ShimTempfile(ctl), "shutil": _ShimShutil(ctl)})
     base = tempfile.mkdtemp(prefix="pyrtma_verif_dlfine_")
     wc = D.WarnCounter()
     root_logger = logging.getLogger("data_logger")
@@ -380,14 +378,12 @@ def run_fine_case(case: Dict[str, Any]) -> Dict[str, Any]:
             finally:
                 dc._dead = True
         root_logger.removeHandler(wc)
-        dcm.threading, dcm.time = old[0], old[1]
-        rebind(dcm, {"threading": old[0], "time": old[1]})
+        reinstate(dcm, old[0])
         if old[2] is None:
             dsm.__dict__.pop("open", None)
         else:
             dsm.open = old[2]
-        qlm.tempfile, qlm.shutil = old[3], old[4]
-        rebind(qlm, {"tempfile": old[3], "shutil": old[4]})
+        reinstate(qlm, old[3])
         shutil.rmtree(base, ignore_errors=True)
     return obs
 
